@@ -7,7 +7,7 @@ from vf.core import FAILED, DISCHARGED, UNDECIDED
 from props import C07 as C7
 from vf.astvc import symex as SX
 
-RECORDS = [("pr", "prints"), ("save", "save")]      # (member of Phreeqc, struct name in global_structures.h)
+RECORDS = [("pr", "prints"), ("save", "save"), ("stag_data", "stag_data")]      # (member of Phreeqc, struct name in global_structures.h)
 
 
 def unit_record_fields(twin=False):
